@@ -4,8 +4,8 @@
 //	agg_start  root=R x={"triggers":[{"dests":[..],"on":"K1_*/1Min/OHLCV"},..],"filter":""}
 //	           a real instance (server DI container) whose trigger dispatcher holds, per entry, the REAL
 //	           aggtrigger.NewTrigger(config) behind a wrapper that only reports when Fire returned
-//	agg_wait   x={"fires":n,"timeout_ms":t}   wait until n more Fire calls have RETURNED; reports their key paths
-//	           and the record indexes they were given
+//	agg_wait   x={"fires":n,"records":m,"timeout_ms":t}   wait until n more Fire calls have RETURNED, they were
+//	           given m records in total and no Fire is running; reports their key paths and record indexes
 //	repl_start x={"master":R1,"replica":R2}
 //	           master = real instance through the DI container, its WAL's ReplicationSender replaced by a
 //	           capturing sender; replica = own root, catalog, WAL, writer (wired like internal/di does for a
@@ -55,11 +55,12 @@ type fireRec struct {
 
 // fireLog is shared by all installed triggers: it counts the Fire calls that have returned.
 type fireLog struct {
-	mu    sync.Mutex
-	cond  *sync.Cond
-	done  int
-	taken int
-	log   []fireRec
+	mu      sync.Mutex
+	cond    *sync.Cond
+	started int
+	done    int
+	taken   int
+	log     []fireRec
 }
 
 type waitTrigger struct {
@@ -72,6 +73,9 @@ func (w *waitTrigger) Fire(keyPath string, records []trigger.Record) {
 	for i := range records {
 		rec.Indexes = append(rec.Indexes, records[i].Index())
 	}
+	w.fl.mu.Lock()
+	w.fl.started++
+	w.fl.mu.Unlock()
 	defer func() {
 		r := recover()
 		if r != nil {
@@ -130,7 +134,8 @@ func aggStart(c *drv.Ctx, o *drv.Op) drv.Obs {
 }
 
 type aggWaitArgs struct {
-	Fires     int `json:"fires"`
+	Fires     int `json:"fires"`   // wait for this many returned Fire calls ...
+	Records   int `json:"records"` // ... and until they were given at least this many records in total
 	TimeoutMS int `json:"timeout_ms"`
 }
 
@@ -149,12 +154,22 @@ func aggWait(c *drv.Ctx, o *drv.Op) drv.Obs {
 	defer timer.Stop()
 	wt.mu.Lock()
 	defer wt.mu.Unlock()
+	// The background WAL writer may flush a request in two transaction groups (its 500 ms ticker can fall
+	// between two queued write commands); the trigger is then fired once per group.  Wait for all records.
+	nrec := func() int {
+		n := 0
+		for _, r := range wt.log[wt.taken:wt.done] {
+			n += len(r.Indexes)
+		}
+		return n
+	}
 	want := wt.taken + a.Fires
-	for wt.done < want && time.Now().Before(deadline) {
+	for (wt.done < want || nrec() < a.Records || wt.started != wt.done) && time.Now().Before(deadline) {
 		wt.cond.Wait()
 	}
-	if wt.done < want {
-		return drv.Obs{"err": fmt.Sprintf("timeout: %d of %d fires returned", wt.done-wt.taken, a.Fires), "driver_error": true}
+	if wt.done < want || nrec() < a.Records || wt.started != wt.done {
+		return drv.Obs{"err": fmt.Sprintf("timeout: %d fires returned (%d started) with %d records, waiting for %d fires / %d records",
+			wt.done-wt.taken, wt.started-wt.taken, nrec(), a.Fires, a.Records), "driver_error": true}
 	}
 	out := append([]fireRec{}, wt.log[wt.taken:wt.done]...)
 	extra := wt.done - want
